@@ -34,7 +34,7 @@ def run(ck, build):
     from . import duallib
     try:
         for ks_ in ("128", "192", "256"):
-            duallib.check_pair_small_siv(ck, mod, ks_, "H/N0", {"SMALLRT": "R-C08-SMALL"})
+            duallib.check_pair_small_siv(ck, mod, ks_, "H/N0", {"SMALLRT": "R-C08-SMALL"}, maxlen=(160 if ck.tier == "thorough" else 80))
     except modecommon.Broken as e:
         ck.note("small-length round-trip rule not decided: %s" % str(e)[:200])
     snap = ck.snapshot()
